@@ -25,6 +25,12 @@ CHECKS = {
         note="Trusted: pyvc, z3. Assumed: rendering and the duplicate filter of halmos.logs are not modelled (observable = the call); the verdict consequence of a stuck path is the C05 proof; whole-loop orchestration of SEVM.run is not under contract; run_target_function's warning is emitted when its generator is consumed to the end.",
         technique="fragment/function VCs generated from the real source AST (pyvc) with a ghost warning log, symbolic limits and counters, z3 LIA",
     ),
+    "C16": dict(
+        text="Deductive, with ghost state meaning: id -> condition: (1) Path.to_smt2 with caching pins every condition whose z3 id is exported as an assertion name in a module-level registry that the module never shrinks, so by the external contract of get_id (unique among live terms) an id never changes meaning; (2) from_result attaches the core parsed from the same output iff the answer is unsat and caching is on; (3) the callback records a core only for unsat and only if non-empty; append_unsat_core stores it where solve_end_to_end looks; (4) check_unsat_cores is True iff some recorded core is a subset of the query's ids (every membership combination, symbolic); (5) solve_end_to_end answers unsat without a solver only on such a hit and otherwise returns the solver's (or the refined query's) answer. With solver soundness this gives: a cached unsat is only given to a query containing a set of conditions a solver proved unsatisfiable. A genuine defect (id reuse after garbage collection gave a false hit) was found by this obligation, replayed natively and repaired.",
+        ref="DESIGN.md 4/C16 and 11",
+        note="Trusted: pyvc, z3, the ghost-state argument. Assumed: z3's get_id uniqueness among live terms; solver soundness and well-formed cores; serialisation facts proved in the C11 pack; parse_unsat_core on a listed family of outputs; GIL atomicity of list.append. The native id-collision search is a bounded stand-in reported separately.",
+        technique="contracts with ghost id->condition meaning; VCs from the real source AST (pyvc), registry frame condition on the module AST, z3; bounded native history search as labelled stand-in",
+    ),
     "C19": dict(
         text="Deductive: insn_len against N(0,w) on the full opcode domain; Contract.__get_jumpdests against the Yellow-Paper D_J by a loop invariant (arbitrary code length and contents, concrete prefix / symbolic bytes, PUSH data straddling the fast-path boundary), with a variant for termination; valid_jumpdests caching; decode past the end = STOP. the jump-destination checks of sevm.py (JUMP arm, concrete JUMPI arm, SEVM.jumpi for every solver answer) against an arbitrary destination set: execution continues at a target only if it is valid, a genuine JUMPDEST is never rejected, an invalid one ends that direction with InvalidJumpDestError. PUSH operand extraction, slices and byte reads are a bounded stand-in (exhaustive short codes natively against specs/dj.py) reported separately and never counted as proved.",
         ref="DESIGN.md 4/C19",
